@@ -384,7 +384,7 @@ func statsUpdates(c *core.Ctx, fn *ssa.Function, fl *ssax.Flow) (global, client 
 }
 
 func c02(c *core.Ctx) {
-	c.Explain("C02 (subscription index): decided statically — R1 trie/index stay in step: every container topicTrie.subscribe fills (node.clients, node.shared[group]) is emptied by every removal path (unsubscribe, unsubscribeAll); a node is unlinked from its parent only under emptiness tests of its children and of every container emptied on that path; a new node's parent is the node it is linked under; a prune key follows the node when walking up; R2 every update of the global subscription counters has a twin on the per-client counters with the same delta, increments of the current count happen only for an index key that was absent and decrements only for one that was present, and the index key distinguishes share groups; R4 Subscribe/Unsubscribe/Iterate route a filter to the shared / system / user trie by the same predicates.")
+	c.Explain("C02 (subscription index): decided statically — R1 trie/index stay in step: every container topicTrie.subscribe fills (node.clients, node.shared[group]) is emptied by every removal path (unsubscribe, unsubscribeAll); a node is unlinked from its parent only under emptiness tests of its children and of every container emptied on that path; a new node's parent is the node it is linked under; a prune key follows the node when walking up; R2 every update of the global subscription counters has a twin on the per-client counters with the same delta, increments of the current count happen only for an index key that was absent and decrements only for one that was present, and the index key distinguishes share groups; R4 Subscribe/Unsubscribe/Iterate route a filter to the shared / system / user trie by the same predicates. Added in the second round: subscribe stores the new subscription on every path of the arm its share name selects; UNSUBSCRIBE touches only the container (and only the group) its filter names; a share group is deleted only when empty after the leaver left; the counters move only under a comma-ok test on the very index key written or deleted; a prune key is an element of strings.Split(filter, '/').")
 	c.NotDecided("that matchTopic implements MQTT 4.7 and that packets.TopicMatch decides the same relation: both are algorithms over unbounded strings and no structural clause of them is a sound proxy — not claimed")
 	p := c.P
 	fl := ssax.NewFlow()
